@@ -48,7 +48,7 @@ pub struct ModelHost<'a> {
     pub model:   HostModel,
     pub names:   Vec<&'a str>,
     /// (pages, exact energy so far) for each memory.grow executed
-    pub grows:   Vec<(u32, u64)>,
+    pub grows:   Vec<(u32, u64, usize)>,
     /// exact energy at each host call
     pub call_energy: Vec<u64>,
 }
@@ -73,8 +73,8 @@ impl RefHost for ModelHost<'_> {
         }
     }
 
-    fn grow(&mut self, pages: u32, energy: u64) -> Result<(), Trap> {
-        self.grows.push((pages, energy));
+    fn grow(&mut self, pages: u32, energy: u64, mem_len: usize) -> Result<(), Trap> {
+        self.grows.push((pages, energy, mem_len));
         Ok(())
     }
 }
